@@ -1,7 +1,7 @@
 (** [run_line]: one case line in, one observation line out (model side of the
     correspondence check). *)
 From Coq Require Import String.
-From JP Require Import Base F64 Value Slice Wire.
+From JP Require Import Base F64 Value Sig Slice JsonRead JsonPrint Functions Interp Wire.
 
 Definition K_slice := Eval compute in s2l "slice".
 Definition K_index := Eval compute in s2l "index".
@@ -20,12 +20,10 @@ Definition run_slice (ts : list tok) : list tok :=
   | _ => bad
   end.
 
-(** [Ast::Index] arm of [interpreter.rs:25-31]: [(-idx) as usize] overflows for
-    [i32::MIN] (debug builds panic); the parser cannot produce that index. *)
+Definition fuel_default : nat := Z.to_nat 4000.
+
 Definition interp_index (v : value) (idx : Z) : res value :=
-  if idx >=? 0 then Ok (get_index v idx)
-  else if idx =? i32_min then Trap
-  else get_negative_index v (- idx).
+  let* (r, _) := interp 1 [] v (AIndex idx) 0 in Ok r.
 
 Definition run_index (ts : list tok) : list tok :=
   match rd_value (S (length ts)) ts with
@@ -37,11 +35,91 @@ Definition run_index (ts : list tok) : list tok :=
   | _ => bad
   end.
 
+Definition K_evalast := Eval compute in s2l "evalast".
+Definition K_cmp := Eval compute in s2l "cmp".
+Definition K_truthy := Eval compute in s2l "truthy".
+Definition K_fn := Eval compute in s2l "fn".
+Definition K_nofunction := Eval compute in s2l "nofunction".
+
+(** evalast <text> <ast> <doc> : [Expression::new(text, ast, &DEFAULT_RUNTIME).search(doc)] *)
+Definition run_evalast (ts : list tok) : list tok :=
+  match ts with
+  | t :: r =>
+      match parse_str t with
+      | Some text =>
+          match rd_ast (S (length r)) r with
+          | Some (a, r') =>
+              match rd_value (S (length r')) r' with
+              | Some (d, []) => pr_res text pr_value (search_ast fuel_default default_runtime a d)
+              | _ => bad
+              end
+          | None => bad
+          end
+      | None => bad
+      end
+  | [] => bad
+  end.
+
+Definition run_cmp (ts : list tok) : list tok :=
+  match ts with
+  | c :: r =>
+      match parse_cmpop c, rd_value (S (length r)) r with
+      | Some c', Some (a, r') =>
+          match rd_value (S (length r')) r' with
+          | Some (b, []) =>
+              pr_res [] pr_value (Ok (match compare_values c' a b with Some x => VBool x | None => VNull end))
+          | _ => bad
+          end
+      | _, _ => bad
+      end
+  | [] => bad
+  end.
+
+Definition run_truthy (ts : list tok) : list tok :=
+  match rd_value (S (length ts)) ts with
+  | Some (a, []) => pr_res [] pr_value (Ok (VBool (is_truthy a)))
+  | _ => bad
+  end.
+
+Fixpoint rd_all_values (fuel : nat) (ts : list tok) : option (list value) :=
+  match fuel with
+  | O => None
+  | S f =>
+      match ts with
+      | [] => Some []
+      | _ => match rd_value (S (length ts)) ts with
+             | Some (v, r) => option_map (cons v) (rd_all_values f r)
+             | None => None
+             end
+      end
+  end.
+
+(** fn <offset> <name> <arg>* : [get_function(name).evaluate(args, ctx)] with [ctx.offset = offset] *)
+Definition run_fn (ts : list tok) : list tok :=
+  match ts with
+  | o :: n :: r =>
+      match parse_nat o, parse_str n, rd_all_values (S (length r)) r with
+      | Some off, Some name, Some args =>
+          match rt_get default_runtime name with
+          | Some fi =>
+              pr_res [] pr_value
+                (let* (v, _) := call_impl (interp fuel_default default_runtime) fi args off in Ok v)
+          | None => [K_ERR; K_nofunction]
+          end
+      | _, _, _ => bad
+      end
+  | _ => bad
+  end.
+
 Definition run_tokens (ts : list tok) : list tok :=
   match ts with
   | k :: r =>
       if str_eqb k K_slice then run_slice r
       else if str_eqb k K_index then run_index r
+      else if str_eqb k K_evalast then run_evalast r
+      else if str_eqb k K_cmp then run_cmp r
+      else if str_eqb k K_truthy then run_truthy r
+      else if str_eqb k K_fn then run_fn r
       else bad
   | [] => bad
   end.
